@@ -263,20 +263,27 @@ func runGraph(prop string, mix opMix) func(s *Sim) {
 				addOp(fmt.Sprintf("MoveNode %s from %s to %s", e[1], e[0], p), func(a *Actor) error {
 					return client.MoveNode(a.Nc, e[1], e[0], p, "mv")
 				})
-			case 6: // delete
+			case 6: // delete: the tombstone is a counter, odd means deleted (1, 3); through the helper or with an explicit stamp
 				e, ok := pickEdge()
 				if !ok {
 					continue
 				}
-				addOp(fmt.Sprintf("DeleteNode %s/%s", e[0], e[1]), func(a *Actor) error { return client.DeleteNode(a.Nc, e[1], e[0], "del") })
-			case 7: // undelete
+				if wl.Chance(1, 2) {
+					addOp(fmt.Sprintf("DeleteNode %s/%s", e[0], e[1]), func(a *Actor) error { return client.DeleteNode(a.Nc, e[1], e[0], "del") })
+				} else {
+					v := float64(1 + 2*wl.Draw(2))
+					addOp(fmt.Sprintf("tombstone=%v %s/%s (now)", v, e[0], e[1]), func(a *Actor) error {
+						return client.SendEdgePoint(a.Nc, e[1], e[0], data.Point{Type: data.PointTypeTombstone, Value: v, Origin: "del"}, true)
+					})
+				}
+			case 7: // undelete: even counts (0, 2, 4), stamped now so that it is newer than an earlier delete
 				e, ok := pickEdge()
 				if !ok {
 					continue
 				}
-				t := nextT()
-				addOp(fmt.Sprintf("undelete %s/%s", e[0], e[1]), func(a *Actor) error {
-					return client.SendEdgePoint(a.Nc, e[1], e[0], data.Point{Type: data.PointTypeTombstone, Value: 0, Time: t}, true)
+				v := float64(2 * wl.Draw(3))
+				addOp(fmt.Sprintf("tombstone=%v %s/%s (now)", v, e[0], e[1]), func(a *Actor) error {
+					return client.SendEdgePoint(a.Nc, e[1], e[0], data.Point{Type: data.PointTypeTombstone, Value: v}, true)
 				})
 			case 8: // stale write: older than anything written before
 				n := pickNode()
